@@ -289,7 +289,7 @@ func genC08(t *rapid.T) c08Case {
 	var xs []NetModel
 	for i := 0; i < k; i++ {
 		x := genModel()
-		if i > 0 && chance(t, "sibling", 2) {
+		if len(xs) > 0 && chance(t, "sibling", 2) {
 			// a sibling of an earlier added rule: same pattern, one value differs
 			x = c08Mutate(t, xs[rapid.IntRange(0, len(xs)-1).Draw(t, "sibling-of")])
 		}
@@ -320,6 +320,11 @@ func genC08(t *rapid.T) c08Case {
 	for _, l := range c.Lines {
 		models = append(models, l.Model)
 	}
+	if len(models) == 0 {
+		m := NetModel{Pat: "||example.org^"}
+		add(m, false)
+		models = append(models, m)
+	}
 	nq := rapid.IntRange(3, 8).Draw(t, "nreq")
 	for i := 0; i < nq; i++ {
 		m := models[rapid.IntRange(0, len(models)-1).Draw(t, "for-rule")]
@@ -336,5 +341,5 @@ func init() { register("C08", checkC08) }
 
 func TestC08(t *testing.T) {
 	_ = strings.Join
-	runProp(t, "C08", checkC08, nil, part[c08Case]{"twins", scale(1200, 12000), genC08})
+	runProp(t, "C08", checkC08, nil, part[c08Case]{"twins", scale(3000, 12000), genC08})
 }
